@@ -121,7 +121,7 @@ func (dist *ChiSquaredDistribution) SetParameters(parameters Vector) error {
 
 func (dist *ChiSquaredDistribution) ImportConfig(config ConfigDistribution, t ScalarType) error {
 
-  if parameters, ok := config.GetParametersAsFloats(); !ok {
+  if parameters, ok := config.GetParametersAsFloats(); !ok || len(parameters) < 1 {
     return fmt.Errorf("invalid config file")
   } else {
     if tmp, err := NewChiSquaredDistribution(t, parameters[0]); err != nil {
